@@ -81,6 +81,15 @@ func c09Configs(tier string, seed int64) []RaceCfg {
 	return out
 }
 
+// stormQuant uses its argument as the receiver of a result (the argument handed to a host function is the callee's own).
+func stormQuant(x *decimal.Big) (int, error) {
+	if x != nil {
+		x.Quantize(2)
+		x.Add(x, decimal.New(1, 0))
+	}
+	return 0, nil
+}
+
 // plainNums renders numbers and arrays of numbers in plain digits.
 func plainNums(v interface{}) string {
 	switch x := v.(type) {
@@ -341,7 +350,7 @@ var c09Share = core.Mon(c09, "concurrent-share", func(w *core.W, c *RaceCfg) {
 	wg.Wait()
 	// a storm on the builtins that compile, look up or format something per call (patterns, zones, layouts, numbers as
 	// text): every goroutine hammers ONE shared tree with its own arguments; each result must be its own
-	stormSrc := "[regexp(s0, pat), regexp(s0, '^nomatch'), regexp(s0, 'abab$'), regexp(s0, pat), timeFormat(useTimezone(t0, zone), lay), toString(n0), replace(s0, '-', pat), lpad(s0, 'x', 12)]"
+	stormSrc := "[regexp(s0, pat), regexp(s0, '^nomatch'), regexp(s0, 'abab$'), regexp(s0, pat), timeFormat(useTimezone(t0, zone), lay), toString(n0), replace(s0, '-', pat), lpad(s0, 'x', 12), fquant(small), small, fquant(len(s0)), len(s0), toString(small)]"
 	if stormTree, serr := hostParse([]byte(stormSrc), true); serr == nil {
 		var swg sync.WaitGroup
 		zones := []string{"UTC", "Asia/Shanghai", "America/New_York", "Europe/London", "Asia/Kolkata"}
@@ -354,6 +363,7 @@ var c09Share = core.Mon(c09, "concurrent-share", func(w *core.W, c *RaceCfg) {
 				m := shallowCopy(datas[g])
 				m["zone"], m["lay"] = zones[g%len(zones)], lays[g%len(lays)]
 				m["t0"] = time.Unix(1700000000+int64(g)*86400*37, 0).UTC()
+				m["small"], m["fquant"] = g%7, stormQuant
 				want := ""
 				for it := 0; it < stormIters; it++ {
 					got := evalOutcome(stormTree, m)
@@ -375,6 +385,7 @@ var c09Share = core.Mon(c09, "concurrent-share", func(w *core.W, c *RaceCfg) {
 			m := shallowCopy(datas[g])
 			m["zone"], m["lay"] = zones[g%len(zones)], lays[g%len(lays)]
 			m["t0"] = time.Unix(1700000000+int64(g)*86400*37, 0).UTC()
+			m["small"], m["fquant"] = g%7, stormQuant
 			if seq := evalOutcome(stormTree, m); stormFirst[g] != "" && seq != stormFirst[g] {
 				report(mismatch{g, -1, "shared builtin storm", seq, stormFirst[g]})
 			}
